@@ -102,6 +102,26 @@ class AutoD(AutoParameterObject):
     def dont_persist_default_value_args():
         return ['rate', 'flag', 'opts']
 
+class AutoX(AutoParameterObject):
+    """extends the list of ignored arguments it gets from the base class, in place"""
+    def __init__(self, source, workers=1, batch_size=8):
+        self.source = source
+        self.workers = workers
+        self.batch_size = batch_size
+
+    @staticmethod
+    def ignore_persistence_args():
+        args = AutoParameterObject.ignore_persistence_args()
+        args += ['workers', 'batch_size']
+        return args
+
+class AutoW(AutoParameterObject):
+    """persists arguments that AutoX ignores"""
+    def __init__(self, lr, workers=1, batch_size=8):
+        self.lr = lr
+        self.workers = workers
+        self.batch_size = batch_size
+
 class User(ParameterObject):
     def __init__(self, text):
         self.text = text
@@ -115,7 +135,7 @@ class Plain:
         self.kwargs = kwargs
 '''
     exec(src, m.__dict__)
-    for c in ('AutoA', 'AutoB', 'AutoC', 'Hooked', 'AutoS', 'AutoK', 'AutoV', 'AutoP', 'AutoD', 'User', 'Plain'):
+    for c in ('AutoA', 'AutoB', 'AutoC', 'Hooked', 'AutoS', 'AutoK', 'AutoV', 'AutoP', 'AutoD', 'AutoX', 'AutoW', 'User', 'Plain'):
         getattr(m, c).__module__ = name
     sys.modules[name] = m
     return m
@@ -131,6 +151,8 @@ AUTO_SIGS = {
     'AutoP': dict(params=[('path', None), ('scale', [1])], ignore=['verbose', 'debug'], dropdef=[]),
     'AutoD': dict(params=[('x', None), ('rate', [1.0]), ('flag', [1]), ('opts', [{'a': 1, 'b': [2]}])], ignore=['verbose', 'debug'],
                   dropdef=['rate', 'flag', 'opts']),
+    'AutoX': dict(params=[('source', None), ('workers', [1]), ('batch_size', [8])], ignore=['verbose', 'debug', 'workers', 'batch_size'], dropdef=[]),
+    'AutoW': dict(params=[('lr', None), ('workers', [1]), ('batch_size', [8])], ignore=['verbose', 'debug'], dropdef=[]),
     'AutoC': dict(params=[('step', None), ('debug_max_rows', [0]), ('verbose_labels', [False]), ('debug', [0])],
                   ignore=['verbose', 'debug'], dropdef=[]),
 }
